@@ -31,6 +31,11 @@
 //	API -- against a fresh copy per call as the control. Per call the oracle below, plus: nothing of an earlier call
 //	under the per-call key, and every object handed over still has the content the application gave it.
 //
+// and (part mutate, mutate.go) what the application does with an object within the call after the hand-over: the
+// handler (the caller, for streams) replaces / overwrites / appends a value, adds or deletes a key of the object it
+// has just handed over, right away or after the response messages, and hands it over again or not; demanded are the
+// pairs as they were at each hand-over.
+//
 // Oracle (oracle.go):
 // every pair the caller attached (through the context or through credentials)
 // is in the handler's incoming metadata, every
@@ -192,6 +197,9 @@ func replay(path string) {
 	if err := common.LoadReplay(path, &probe); err == nil && probe.Part == partReuse {
 		replaySeq(path)
 	}
+	if probe.Part == partMutate {
+		replayMut(path)
+	}
 	var c Case
 	if err := common.LoadReplay(path, &c); err != nil {
 		inconclusive("cannot load replay %s: %v", path, err)
@@ -261,8 +269,11 @@ func main() {
 	if err := selfTestReuse(); err != nil {
 		inconclusive("self-test: %v", err)
 	}
+	if err := selfTestMutate(); err != nil {
+		inconclusive("self-test: %v", err)
+	}
 	us := units(maxLen, multiAll, tripleSet, thorough)
-	if os.Getenv("C03E2_ONLY") == partReuse {
+	if only := os.Getenv("C03E2_ONLY"); only == partReuse || only == partMutate {
 		us = nil // development aid: only the reuse part (the evidence then says so: evaluations_per_part)
 	}
 	// the reference transport: thorough = every unit; quick = the one- and two-value one-key maps in the base modes, the five-key maps
@@ -325,9 +336,12 @@ func main() {
 	// ---- part reuse: sequences of calls made with the application's long-lived metadata objects (reuse.go); always with
 	// the reference transport next to the library's
 	sus := seqUnits(thorough)
+	if os.Getenv("C03E2_ONLY") == partMutate {
+		sus = nil
+	}
 	kseqs := kindSeqs(thorough)
 	seqResults := make([]seqUnitResult, len(sus))
-	seqSampleEvery := len(sus) / 4
+	seqSampleEvery := len(sus)/4 + 1
 	seqJobs := make(chan int)
 	for _, w := range workers[:nw] {
 		w := w
@@ -348,6 +362,31 @@ func main() {
 		seqJobs <- i
 	}
 	close(seqJobs)
+	wg.Wait()
+
+	// ---- part mutate: the application changes a metadata object within the call after handing it over (mutate.go)
+	mus := mutUnits(thorough)
+	if os.Getenv("C03E2_ONLY") == partReuse {
+		mus = nil
+	}
+	mutResults := make([]mutUnitResult, len(mus))
+	mutSampleEvery := len(mus)/40 + 1
+	mutJobs := make(chan int)
+	for _, w := range workers[:nw] {
+		w := w
+		wg.Add(1)
+		go func() {
+			defer wg.Done()
+			ts := append(append([]string(nil), libTransports...), refTransport)
+			for i := range mutJobs {
+				mutResults[i] = runMutUnit(w, mus[i], ts, i%mutSampleEvery == mutSampleEvery/2)
+			}
+		}()
+	}
+	for i := range mus {
+		mutJobs <- i
+	}
+	close(mutJobs)
 	wg.Wait()
 
 	// ---- collect, in unit order (deterministic whatever the worker interleaving was)
@@ -395,6 +434,25 @@ func main() {
 		refMismatch = append(refMismatch, r.refMismatch...)
 		unreached = append(unreached, r.unreached...)
 		seqViol = append(seqViol, r.viol...)
+	}
+	mutCases, mutSamples := 0, 0
+	mutDistinct := map[uint64]struct{}{}
+	var mutViol []mutViolating
+	for _, r := range mutResults {
+		mutCases += r.cases
+		evals += r.cases
+		perPart[partMutate] += r.cases
+		for _, h := range r.nontrivial {
+			distinct[h] = struct{}{}
+			mutDistinct[h] = struct{}{}
+		}
+		if r.sample != nil && mutSamples < 3 {
+			mutSamples++
+			samples = append(samples, r.sample)
+		}
+		refMismatch = append(refMismatch, r.refMismatch...)
+		unreached = append(unreached, r.unreached...)
+		mutViol = append(mutViol, r.viol...)
 	}
 	if len(refMismatch) > 0 {
 		for i, s := range refMismatch {
@@ -500,6 +558,19 @@ func main() {
 	for _, g := range seqGroups {
 		rep.Violation(g.fp, fmt.Sprintf("%s [simplest of %d violating call sequences of the reuse part with this damage]", g.what, g.count), g.rep)
 	}
+	mutGroups, mutUnstable := groupMut(mutViol, thorough, func(m MutCase, els []string) bool {
+		for i := 0; i < 2; i++ {
+			got, _ := mz.w.runMut(m).elements()
+			if strings.Join(got, ",") != strings.Join(els, ",") {
+				return false
+			}
+		}
+		return true
+	})
+	unstable += mutUnstable
+	for _, g := range mutGroups {
+		rep.Violation(g.fp, fmt.Sprintf("%s [simplest of %d violating cases of the mutate part with this damage]", g.what, g.count), g.rep)
+	}
 	spent := map[string]time.Duration{}
 	for _, w := range workers {
 		w.close()
@@ -515,6 +586,7 @@ func main() {
 		"per application key the observed value list must equal the list that was set (all values, order, bytes); keys the application did not set are ignored; grpc-go over bufconn satisfies this oracle on the same cases (checked in this run)",
 		"per-RPC credentials (grpc.PerRPCCredentials call option; a static map, RequireTransportSecurity false, one option per call) count as metadata the caller attaches: under a key the credentials also produce the handler must see the caller's values in the caller's order with the credentials' value inserted once at any position (grpc-go puts it first, grpchan last; the statement fixes neither), under a key only the credentials produce exactly their value; keys compared in lower case. The credentials dimension is crossed with kind x outcome x transport x attach mode (part creds, narrow expansion) and swept around one-key bases for nresp x Header() position x option count with header and trailer maps present (part creds-sweep); it is not crossed with the value-list grammar of the one-key part (values rotate through the alphabets instead)",
 		"part reuse (long-lived metadata objects): the sequences are sequential (call n+1 starts when call n has ended) on one channel / server per transport; the long-lived object holds valid-UTF-8 values and the per-call objects one key with one value naming the call (the value grammar is the other parts' subject), two grpc.Header and two grpc.Trailer options per call, one response message for the server-streaming kinds; per call the oracle is the per-call oracle above (what the application put into the objects it handed over in this call, nothing of an earlier call under the per-call key) plus: every object handed to the library has, after the call, the content it had before it. The reuse dimension is crossed with kind sequence x position x hand-over mode x script x long-lived map x per-call key x outcome x transport, not with the value-list grammar, the option count, Header() position or the credentials key-set grammar. Only the application's side keeps objects: what the client does with the metadata it receives (e.g. writing into a received header map) is not varied",
+		"part mutate (an object changed within the call after its hand-over): one object, one mutation on its first key (or none), at one of two moments, handed over again or not; the handler does this on its own goroutine between its own calls, so nothing is concurrent with the library unless the library itself defers reading the object. Demanded: the pairs as the object held them at each hand-over, in hand-over order (grpc-go agrees on every member, checked in this run). The caller's side (outgoing MD changed as soon as NewStream returned) is checked for streams over the HTTP transports only: for unary calls nothing is observable after Invoke returned, and the in-process side is C10's clause. Swept around the base cases (kind x outcome x transport x hand-over mode x 4-5 small objects), two grpc.Header / grpc.Trailer options, not crossed with the value-list grammar or the reuse sequences",
 		"the hang guard (30 s without progress) uses the wall clock; nothing else does",
 	}
 	os.Exit(rep.Finish("exploration", map[string]interface{}{
@@ -528,20 +600,25 @@ func main() {
 		"reuse_units":                     len(sus),
 		"reuse_distinct_shared_object":    len(seqDistinct),
 		"reuse_violating_sequences":       len(seqViol),
+		"mutate_cases":                    mutCases,
+		"mutate_units":                    len(mus),
+		"mutate_distinct_changed_object":  len(mutDistinct),
+		"mutate_violating_cases":          len(mutViol),
 		"minimiser_runs":                  mz.runs,
 		"not_reproducible":                unstable,
 		"flaky_minimiser_verdicts":        mz.flaky,
 		"gate_timed_out":                  gateTimedOut.Load(),
-		"rule":                            "a case (transport, kind, outcome, nresp, Header() position, option count, three maps with their attach modes, credentials map with its key spelling) is non-trivial when the real handler was reached and at least one application pair was in play (caller attached request metadata or passed per-RPC credentials, or a SetHeader/SendHeader/SetTrailer call of the handler returned nil), i.e. the metadata copy / merge / encode / fan-out path ran; distinct by all case parameters (FNV-64 of the case key); reference-transport (grpc-go) runs are counted in evaluations but not here. A call sequence of part reuse is non-trivial (and counted, keyed by all its parameters; reuse_distinct_shared_object) when the very same long-lived object was handed to the library in every call, every call reached the real handler and the library accepted the objects (no SetHeader/SetTrailer error) in at least two calls, i.e. the copy-or-keep decision of the metadata path ran at least twice on one object; the control sequences (fresh copy per call) and the reference-transport runs count in evaluations (one per call) only. credentials_cases_reached: library cases with a grpc.PerRPCCredentials option whose handler ran; credentials_distinct_shared_key: the distinct ones among them in which the caller's metadata and the credentials have at least one key in common (the merge had to keep both sides' values under one key)",
+		"rule":                            "a case (transport, kind, outcome, nresp, Header() position, option count, three maps with their attach modes, credentials map with its key spelling) is non-trivial when the real handler was reached and at least one application pair was in play (caller attached request metadata or passed per-RPC credentials, or a SetHeader/SendHeader/SetTrailer call of the handler returned nil), i.e. the metadata copy / merge / encode / fan-out path ran; distinct by all case parameters (FNV-64 of the case key); reference-transport (grpc-go) runs are counted in evaluations but not here. A call sequence of part reuse is non-trivial (and counted, keyed by all its parameters; reuse_distinct_shared_object) when the very same long-lived object was handed to the library in every call, every call reached the real handler and the library accepted the objects (no SetHeader/SetTrailer error) in at least two calls, i.e. the copy-or-keep decision of the metadata path ran at least twice on one object; the control sequences (fresh copy per call) and the reference-transport runs count in evaluations (one per call) only. A case of part mutate is non-trivial (mutate_distinct_changed_object) when the handler was reached (request position: the stream was created), the library accepted every hand-over and the application did change the object after a hand-over (op other than none), i.e. the library's copy-at-hand-over was put to the test. credentials_cases_reached: library cases with a grpc.PerRPCCredentials option whose handler ran; credentials_distinct_shared_key: the distinct ones among them in which the caller's metadata and the credentials have at least one key in common (the merge had to keep both sides' values under one key)",
 		"credentials_cases_reached":       credsEvals,
 		"credentials_distinct_shared_key": len(credsShared),
 		"samples":                         samples,
 		"exhaustive":                      true,
 		"grammar": fmt.Sprintf("one-key maps: 5 keys x value lists of length 1..%d over 5 values x all attach modes (request: NewOutgoingContext, AppendToOutgoingContext per pair, first pair New + rest appended) x 3 positions; two-key maps: 10 key pairs x 25 value pairs and 5 five-key maps x attach modes (all=%v) x 3 positions; %d^3 three-position triples; each x 4 kinds x ok/fail x nresp x Header() position x 0..2 options x 5 transports (inproc, http-rec, http-wire, http-net; http-gate for the stream kinds). "+
 			"Per-RPC credentials (part creds): every pair (caller key set S, credentials key set T non-empty) of subsets of the key alphabet %v (disjoint, overlapping, nested, identical; S empty = credentials alone) x 1..%d caller values per key x %d value schemes (rotations of the value alphabets with the credentials' value different from all the caller's for the key, and one where it repeats the caller's first value) x every request attach mode x credentials' keys in lower / upper case x 4 kinds x ok/fail x 5 transports; (part creds-sweep): none or one caller key (two values) x one credentials key over the same alphabet x every request attach mode, with a header and a trailer map set, x the full expansion (nresp x Header() position x 0..2 options). No credentials = all other parts. "+
-			"Long-lived objects (part reuse): sequences of calls on one channel / server: every sequence of 2 RPC kinds and %s x position {header, trailer, header+trailer (one object handed to both), request} x script over {L = the long-lived object, P = a per-call object} of length 1..%d with at least one L (request: L first and once) x hand-over mode {header: grpc.SetHeader(ctx) or the stream's SetHeader, the last call optionally SendHeader; trailer: grpc.SetTrailer(ctx), the stream's SetTrailer before / after the response messages / first before and the rest after; request: NewOutgoingContext(L) + AppendToOutgoingContext per per-call pair, L as the map the PerRPCCredentials return, or both} x %d long-lived maps x per-call key {L's first key, a key L does not have} x handler ok/fail x {the same object in every call, a fresh copy per call (control)} x 5 transports + grpc-go",
+			"Long-lived objects (part reuse): sequences of calls on one channel / server: every sequence of 2 RPC kinds and %s x position {header, trailer, header+trailer (one object handed to both), request} x script over {L = the long-lived object, P = a per-call object} of length 1..%d with at least one L (request: L first and once) x hand-over mode {header: grpc.SetHeader(ctx) or the stream's SetHeader, the last call optionally SendHeader; trailer: grpc.SetTrailer(ctx), the stream's SetTrailer before / after the response messages / first before and the rest after; request: NewOutgoingContext(L) + AppendToOutgoingContext per per-call pair, L as the map the PerRPCCredentials return, or both} x %d long-lived maps x per-call key {L's first key, a key L does not have} x handler ok/fail x {the same object in every call, a fresh copy per call (control)} x 5 transports + grpc-go. "+
+			"Objects changed within the call (part mutate): position {header, trailer, header>trailer and trailer>header (one object for both, changed in between), request (streams over HTTP: outgoing MD changed as soon as NewStream returned)} x hand-over mode {header: grpc.SetHeader(ctx) or the stream's SetHeader, the last hand-over optionally SendHeader; trailer: grpc.SetTrailer(ctx), the stream's SetTrailer, after the response messages, first before and second after them} x %d objects x mutation {none, replace the value list of the first key, overwrite its first value in place, append a value, add a key, delete the key} x moment {right after the hand-over, after the response messages} x handed over again or not x handler ok/fail x 4 kinds x 5 transports + grpc-go",
 			maxLen, multiAll, tripleSet, credsKeyAlpha(thorough), map[bool]int{false: 2, true: 3}[thorough], map[bool]int{false: 3, true: 6}[thorough],
-			map[bool]string{false: "the 4 sequences of 3 calls of one kind", true: "every sequence of 3 RPC kinds (those of different kinds for the first two long-lived maps only, the four of one kind for all)"}[thorough], map[bool]int{false: 2, true: 3}[thorough], len(longMaps(thorough))),
+			map[bool]string{false: "the 4 sequences of 3 calls of one kind", true: "every sequence of 3 RPC kinds (those of different kinds for the first two long-lived maps only, the four of one kind for all)"}[thorough], map[bool]int{false: 2, true: 3}[thorough], len(longMaps(thorough)), len(mutInits(thorough))),
 		"reference_validated_on_grpc_go": true,
 	}, assumptions))
 }
